@@ -4,7 +4,9 @@ pandas' text layer is trusted / opaque; the theorems are about the row algebra o
 `Model/Frame.lean`). Only property theorems here; helpers in `Lemmas/Frame.lean`.
 
 The group-by key lists are NOT part of the hand-written model: `Frame.groupCols` reads them from
-`Bermuda.Generated.Frame.groupByKeys`, regenerated from the source on every run, so the two
+`Bermuda.Generated.FrameKeys.groupByKeys` — the `by` lists OBSERVED by harness/translate_c14.py on
+probe frames (a recording wrapper around `DataFrame.groupby`; keys present on every probe),
+regenerated on every run —, so the two
 `slices_preserved_*` theorems are re-proved against what `data_frame_input.py` says now. Before fix
 D9 `slices_preserved_keys` was false (country, currency, reinsurance_basis, loss_definition missing).
 -/
@@ -15,7 +17,7 @@ open Bermuda Bermuda.Frame Bermuda.Spec.C14
 /-- **slices_preserved (table form).** Both readers group by the coordinates, ALL six metadata
 columns and the detail / loss-detail columns — a statement about the regenerated key lists. -/
 theorem slices_preserved_keys :
-    Generated.Frame.ok = true ∧ keysCover "wide_data_frame_to_triangle" = true ∧
+    Generated.FrameKeys.ok = true ∧ keysCover "wide_data_frame_to_triangle" = true ∧
     keysCover "long_data_frame_to_triangle" = true := by decide
 
 /-- **slices_preserved.** In a reader whose generated key list covers the required keys, two rows
